@@ -35,6 +35,11 @@ var targets = []target{
 	{"pkg/p2p/message_protocol.go", []string{"MessageProtocol.start"}},
 	{"pkg/p2p/p2p.go", []string{"Connection.Start", "Connection.Stop"}},
 	{"pkg/p2p/gossipsub.go", []string{"GossipSub.start"}},
+	// configuration path (Props/C18_Config.lean): newPeer hands the blacklist to the gater; the peerbook keeps a
+	// VIEW of the configuration lists ("*" = every function of the file, so that any write to them is seen)
+	{"pkg/p2p/peer.go", []string{"newPeer"}},
+	{"pkg/p2p/peerbook.go", []string{"*"}},
+	{"pkg/p2p/conngater.go", []string{"connectionGater.optionWithBlacklist"}},
 }
 
 var fset = token.NewFileSet()
@@ -234,7 +239,7 @@ func main() {
 			}
 			want := false
 			for _, fn := range t.funcs {
-				want = want || fn == name
+				want = want || fn == name || fn == "*"
 			}
 			if !want {
 				continue
@@ -251,6 +256,9 @@ func main() {
 			w.block(fd.Body, 0, nil)
 		}
 		for _, fn := range t.funcs {
+			if fn == "*" {
+				continue
+			}
 			if !found[fn] {
 				fns = append(fns, fnInfo{fn, []string{"MISSING"}})
 			}
